@@ -140,6 +140,10 @@ def _judge(op, dim, res, backend, cellkey, label, self_l, args, got, f64):
             base = E.eval_ref(op, self_l, args, True)
             sens = abs(base) * eps
             operands = [self_l] + [a for a in args if isinstance(a, E.LVec)]
+            if "parallel" in label:
+                raise ValueError("collinear operands: first-order differences say nothing about arccos at +-1")
+            if any(c == 0 for l in operands for c in l.f64()[0]):
+                raise ValueError("a stored coordinate is exactly zero: one-ulp differences say nothing about the condition")
             for l in operands:
                 c0 = list(l.f64()[0])
                 for i, c in enumerate(c0):
@@ -150,7 +154,7 @@ def _judge(op, dim, res, backend, cellkey, label, self_l, args, got, f64):
                     val = E.eval_ref(op, l2 if l is self_l else self_l, a2, False)
                     sens += abs(val - base) / 4
             if sens > 0:
-                res.err("f64:error_in_units_of_(eps x condition)", abs(got - exp) / sens)
+                res.err("f64:error_in_units_of_(eps x condition):" + op.group, abs(got - exp) / sens)
                 res.count("cond_estimates")
         except Exception:
             pass
